@@ -41,6 +41,23 @@ def ship_oil(frame=False):
     return df.copy() if frame else {c: df[c].to_numpy(dtype=float).copy() for c in df.columns}
 
 
+@functools.lru_cache(maxsize=None)
+def _lib():
+    from bluebonnet.fluids import build_pvt_gas  # noqa: PLC0415
+
+    df = build_pvt_gas({"N2": 0.01, "H2S": 0.0, "CO2": 0.02, "Gas Specific Gravity": 0.7,
+                        "Reservoir Temperature (deg F)": 220.0}, "dry gas", maximum_pressure=12_000)
+    return df.rename(columns={"Density": "density"})
+
+
+def lib(frame=False):
+    """Table tabulated by the library's own fluids module (build_pvt_gas); carries known finding K1
+    (density follows the substituted EOS, compressibility the published one), i.e. it is measurably
+    inconsistent - which C03 accounts for through its measured delta."""
+    df = _lib()
+    return df.copy() if frame else {c: df[c].to_numpy(dtype=float).copy() for c in df.columns}
+
+
 def hay(frame=False, pmax=10_000.0):
     df = _csv("pvt_gas_HAYNESVILLE SHALE_20.csv").rename(columns={"Density": "density", "T": "temperature"})
     df = df[[c for c in df.columns if not c.startswith("Unnamed")]]
@@ -146,7 +163,7 @@ def alpha_exact(name):
 
 
 TABLES = {
-    "T_ship_gas": ship_gas, "T_hay": hay, "T_ship_oil": ship_oil,
+    "T_ship_gas": ship_gas, "T_hay": hay, "T_ship_oil": ship_oil, "T_lib": lib,
     "S_ideal": lambda **k: synth("S_ideal", **k), "S_zlin": lambda **k: synth("S_zlin", **k),
     "S_zdip": lambda **k: synth("S_zdip", **k), "S_zdip_desc": lambda **k: synth_desc("S_zdip", **k),
     "A_const": lambda **k: alpha_family("A_const", **k), "A_rise": lambda **k: alpha_family("A_rise", **k),
